@@ -29,7 +29,7 @@ type histOp struct {
 var histFrags = []string{"a", "{% include 'inc' %}", "{% for v in [1, 2] %}", "{{ v }}", "{% endfor %}", "b",
 	`{{ "s#{x ~ 'i'}t" }}`, "{# c #}", "{% verbatim %}{{ q }}{% endverbatim %}", "{{ {k: [1, (2)]}.k[1] }}c",
 	// more tokens than bytes: empty strings and empty comments (a token need not consume input)
-	"{% set row = [" + strings.Repeat("'', ", 60) + "''] %}" + strings.Repeat("{##}", 30) + `{{ "#{''}#{''}#{''}" }}`}
+	"{% set row = [" + strings.Repeat("'', ", 600) + "''] %}" + strings.Repeat("{##}", 30) + `{{ "#{''}#{''}#{''}" }}`}
 
 func histSources(kind string, inline bool) (entry string, files map[string]string) {
 	inc := "<{{ x }}>"
